@@ -253,7 +253,8 @@ namespace occa {
           opType_t opType = opNode.opType();
           validOp = (opType & (operatorType::addEq |
                                operatorType::subEq));
-          validVar = usesIterator(opNode, updateValue);
+          // [it += step]: the iterator has to be the left operand ([n += it] updates n)
+          validVar = (usesIterator(opNode, updateValue) < 0);
           positiveUpdate = (opType & operatorType::addEq);
         }
         if (!validOp) {
